@@ -388,6 +388,15 @@ impl World {
         self.note(rec, "kill switch signalled");
     }
 
+    /// the application resets the kill switch through its own handle (reads the eventfd) and carries on
+    pub fn clear_kill(&mut self, rec: &mut Rec) {
+        if let Some(k) = self.kill.as_ref() {
+            let _ = k.read();
+            self.killed = false;
+        }
+        self.note(rec, "kill switch reset by the application (eventfd read)");
+    }
+
     pub fn ready(&self) -> bool {
         fd_ready(self.epfd)
     }
